@@ -38,7 +38,8 @@ def tolerated(case, i, impl, model):
 
 def gen_cases(rng, tier):
     n = 400 if tier == "thorough" else 80
-    return [_hist.gen_history_case(rng, rng.randint(8, 26), refless_script=(i % 5 == 4))
+    return [_hist.gen_history_case(rng, rng.randint(8, 26), refless_script=(i % 5 == 4),
+                                   undefined_units=(.5 if i % 4 == 1 else 0.0))
             for i in range(n)]
 
 
